@@ -325,6 +325,7 @@ func (x *fnCtx) doGo(st *State, fr *Frame, g *ssa.Go) {
 // ---------------- contracts at call sites ----------------
 
 type specEnv struct {
+	pkg    string // package path whose names unqualified types refer to (callee contracts)
 	x      *fnCtx
 	st     *State
 	heap   *Heap // heap used for reads
@@ -358,7 +359,7 @@ func (x *fnCtx) applyContract(st *State, fr *Frame, in ssa.Instruction, con *Con
 		}
 		names[fmt.Sprintf("$%d", i)] = nameBind{v: a}
 	}
-	env := &specEnv{x: x, st: st, heap: st.heap, old: st.heap, names: names, fr: fr}
+	env := &specEnv{x: x, st: st, heap: st.heap, old: st.heap, names: names, fr: fr, pkg: con.Pkg}
 	short := x.curShort(fr)
 	// preconditions are obligations of the caller
 	for _, cl := range con.ClausesOf("requires") {
@@ -429,9 +430,21 @@ func (x *fnCtx) applyContract(st *State, fr *Frame, in ssa.Instruction, con *Con
 			names["result0"] = nameBind{v: res}
 		}
 	}
-	env2 := &specEnv{x: x, st: st, heap: st.heap, old: oldHeap, names: names, fr: fr}
+	env2 := &specEnv{x: x, st: st, heap: st.heap, old: oldHeap, names: names, fr: fr, pkg: con.Pkg}
 	for _, cl := range con.ClausesOf("ensures") {
-		st.assume(x.evalSpecBool(env2, cl.Expr))
+		func() {
+			// an ensures that mentions the callee's own ghost bindings is not usable by callers
+			defer func() {
+				if r := recover(); r != nil {
+					if ee, ok := r.(engineError); ok && strings.Contains(ee.msg, "unknown identifier") {
+						x.eng.logAbs("%s: postcondition of %s not usable at the call site (%s)", x.short, con.Func, cl.Text)
+						return
+					}
+					panic(r)
+				}
+			}()
+			st.assume(x.evalSpecBool(env2, cl.Expr))
+		}()
 	}
 	return res
 }
@@ -637,13 +650,23 @@ func (x *fnCtx) recordTrace(st *State, name string, c *ssa.CallCommon, fnv *Val,
 					} else if a.L[0].IsLit() {
 						s = a.L[0].Op
 					}
+				} else if a.Tup == nil && len(a.L) == 2 && isIface(a.T) && a.L[1].IsLit() {
+					s = a.L[1].Op // boxed constant
 				}
 				ev = strings.ReplaceAll(ev, ph, s)
 			}
 		}
 		st.trace = append(st.trace, Event{Name: ev, Args: args, Res: res})
 		if td.As != "" && res != nil {
-			st.ghost[td.As] = res
+			if x.bindOutsideLoops(td) {
+				// a binding made outside every loop is one value for the whole call: name it by a
+				// stable symbol so that paths starting at a loop header can refer to it
+				sym := x.stableGhost(td, res)
+				st.assume(tupleEq(res, sym))
+				st.ghost[td.As] = sym
+			} else {
+				st.ghost[td.As] = res
+			}
 		}
 		return
 	}
@@ -671,4 +694,55 @@ func traceMatches(pattern string, tr []Event) (bool, error) {
 		reCache[pattern] = re
 	}
 	return re.MatchString(traceString(tr)), nil
+}
+
+func tupleEq(a, b *Val) *Term {
+	if a.Tup != nil {
+		var cs []*Term
+		for i := range a.Tup {
+			cs = append(cs, tupleEq(a.Tup[i], b.Tup[i]))
+		}
+		return And(cs...)
+	}
+	return valEq(a, b)
+}
+
+func (x *fnCtx) stableGhost(td *TraceDecl, like *Val) *Val {
+	return freshVal(like.T, "ghost."+x.short+"."+td.As, true)
+}
+
+// bindOutsideLoops: every call site matched by the declaration lies outside all loops, and
+// there is exactly one such site.
+func (x *fnCtx) bindOutsideLoops(td *TraceDecl) bool {
+	if v, ok := x.bindOutside[td]; ok {
+		return v
+	}
+	if x.bindOutside == nil {
+		x.bindOutside = map[*TraceDecl]bool{}
+	}
+	n := 0
+	okAll := true
+	for _, b := range x.fn.Blocks {
+		for _, in := range b.Instrs {
+			var c *ssa.CallCommon
+			switch v := in.(type) {
+			case *ssa.Call:
+				c = &v.Call
+			case *ssa.Defer:
+				c = &v.Call
+			}
+			if c == nil || !matchCallee(td.Pattern, calleeName(c)) {
+				continue
+			}
+			n++
+			for _, h := range x.hdrList {
+				if x.loopBlocks(h)[b] {
+					okAll = false
+				}
+			}
+		}
+	}
+	res := okAll && n == 1
+	x.bindOutside[td] = res
+	return res
 }
